@@ -4,6 +4,9 @@ use anthem::syntax_tree::fol::sigma_0 as fol;
 
 /// (formula var term): binder pools designed to exhaust fresh-name candidates
 fn gen_case(rng: &mut Rng) -> Sexp {
+    if rng.chance(40) {
+        return capture_case(rng);
+    }
     let cfg = if rng.chance(60) {
         g::Cfg { var_names: vec!["X", "Y", "X1", "Y1", "X2", "Y2", "X11"], use_fconsts: rng.chance(30), ..g::Cfg::tight() }
     } else {
@@ -22,6 +25,184 @@ fn gen_case(rng: &mut Rng) -> Sexp {
     } else {
         g::gterm(rng, &cfg, 2)
     };
+    l(vec![conv::formula(&f), conv::var(&x), conv::gterm(&t)])
+}
+
+fn var_term(v: &fol::Variable) -> fol::GeneralTerm {
+    match v.sort {
+        fol::Sort::General => fol::GeneralTerm::Variable(v.name.clone()),
+        fol::Sort::Integer => fol::GeneralTerm::IntegerTerm(fol::IntegerTerm::Variable(v.name.clone())),
+        fol::Sort::Symbol => fol::GeneralTerm::SymbolicTerm(fol::SymbolicTerm::Variable(v.name.clone())),
+    }
+}
+
+/// a term of the sort of `vs` mentioning exactly these variables (integer: a sum; otherwise the first one)
+fn term_over(rng: &mut Rng, vs: &[fol::Variable]) -> fol::GeneralTerm {
+    if vs[0].sort != fol::Sort::Integer {
+        return var_term(&vs[0]);
+    }
+    let mut t = fol::IntegerTerm::Variable(vs[0].name.clone());
+    for v in &vs[1..] {
+        let op = if rng.chance(80) { fol::BinaryOperator::Add } else { fol::BinaryOperator::Subtract };
+        t = fol::IntegerTerm::BinaryOperation { op, lhs: t.into(), rhs: fol::IntegerTerm::Variable(v.name.clone()).into() };
+    }
+    if rng.chance(20) {
+        t = fol::IntegerTerm::BinaryOperation {
+            op: fol::BinaryOperator::Add,
+            lhs: t.into(),
+            rhs: fol::IntegerTerm::Numeral(rng.range(-1, 2) as isize).into(),
+        };
+    }
+    fol::GeneralTerm::IntegerTerm(t)
+}
+
+/// Targeted capture scenarios.  One family of names B, B1, B2, ... at one sort: the block binds family
+/// members (possibly repeated), every literal of the body talks about family members (so bound variables
+/// really occur), the term mentions bound variables (forcing renaming), the substituted variable is
+/// usually a family member itself (hence a fresh-name candidate), and in "exhaust" mode the names
+/// B1..B10 are all taken by the term and the body, so that the candidates of B and of B1 meet at B11.
+/// Bodies prefer comparisons: their truth does not depend on the sampled predicate interpretation, so a
+/// captured variable changes the truth value on most assignments.
+fn capture_case(rng: &mut Rng) -> Sexp {
+    use fol::Sort as S;
+    let bs = *rng.pick(&[S::Integer, S::Integer, S::Integer, S::General, S::Symbol]);
+    let base = *rng.pick(&["X", "Y"]);
+    let fam = |k: usize| fol::Variable { name: if k == 0 { base.to_string() } else { format!("{base}{k}") }, sort: bs };
+    let exhaust = bs == S::Integer && rng.chance(30);
+
+    // the block
+    let mut block: Vec<fol::Variable> = vec![];
+    if exhaust {
+        block.push(fam(0));
+        block.push(fam(1));
+        if rng.chance(50) {
+            block.swap(0, 1);
+        }
+        if rng.chance(25) {
+            block.push(fam(rng.below(4)));
+        }
+    } else {
+        for _ in 0..(1 + rng.weighted(&[5, 4, 2])) {
+            block.push(fam(rng.below(4)));
+        }
+    }
+
+    // the substituted variable: a family member / a candidate of one, at the block's sort or general
+    let xs = if bs == S::General || rng.chance(70) { bs } else { S::General };
+    let xname = match rng.weighted(&[4, 3, 2, 2, 2, 1]) {
+        0 => fam(1).name,
+        1 => fam(2).name,
+        2 => fam(3).name,
+        3 => fam(11).name,
+        4 => fam(12).name,
+        _ => "Z".to_string(),
+    };
+    let x = fol::Variable { name: xname, sort: xs };
+    if rng.chance(85) {
+        block.retain(|v| *v != x);
+        if block.is_empty() {
+            block.push(fam(0));
+        }
+    }
+    let x_term = var_term(&x);
+
+    // the term: mentions bound variables, plus B1..B10 in exhaust mode (some of them go to the body instead)
+    let mut tvs: Vec<fol::Variable> = vec![];
+    let mut body_extra: Vec<fol::Variable> = vec![];
+    if exhaust {
+        tvs.push(fam(0));
+        tvs.push(fam(1));
+        for k in 2..=10 {
+            if rng.chance(75) { tvs.push(fam(k)) } else { body_extra.push(fam(k)) }
+        }
+    } else {
+        tvs.push(rng.pick(&block).clone());
+        if rng.chance(50) {
+            tvs.push(rng.pick(&block).clone());
+        }
+        if rng.chance(50) {
+            tvs.push(fam(rng.below(4)));
+        }
+        if rng.chance(15) {
+            tvs.push(fam(11 + rng.below(2)));
+        }
+        tvs.dedup();
+    }
+    let t = term_over(rng, &tvs);
+
+    // the body: 1-3 literals over block variables, x and other family members
+    let mut pool: Vec<fol::GeneralTerm> = block.iter().map(var_term).collect();
+    pool.push(x_term.clone());
+    pool.push(var_term(&fam(rng.below(4))));
+    for v in &body_extra {
+        pool.push(var_term(v));
+    }
+    let literal = |rng: &mut Rng, must: Option<fol::GeneralTerm>| -> fol::Formula {
+        let a = must.unwrap_or_else(|| rng.pick(&pool).clone());
+        let b = rng.pick(&pool).clone();
+        let atomic = if rng.chance(65) {
+            fol::AtomicFormula::Comparison(fol::Comparison { term: a, guards: vec![fol::Guard { relation: g::relation(rng), term: b }] })
+        } else {
+            let mut terms = vec![a];
+            if rng.chance(50) {
+                terms.push(b);
+            }
+            fol::AtomicFormula::Atom(fol::Atom { predicate_symbol: rng.pick(&["p", "q"]).to_string(), terms })
+        };
+        let f = fol::Formula::AtomicFormula(atomic);
+        if rng.chance(15) {
+            fol::Formula::UnaryFormula { connective: fol::UnaryConnective::Negation, formula: f.into() }
+        } else {
+            f
+        }
+    };
+    let mut musts: Vec<fol::GeneralTerm> = vec![];
+    for v in &block {
+        if rng.chance(85) {
+            musts.push(var_term(v));
+        }
+    }
+    if rng.chance(60) {
+        musts.push(x_term.clone());
+    }
+    for v in &body_extra {
+        musts.push(var_term(v));
+    }
+    if musts.is_empty() {
+        musts.push(var_term(&block[0]));
+    }
+    let mut body: Option<fol::Formula> = None;
+    for m in musts {
+        let lit = literal(rng, Some(m));
+        body = Some(match body {
+            None => lit,
+            Some(b) => fol::Formula::BinaryFormula { connective: g::connective(rng), lhs: b.into(), rhs: lit.into() },
+        });
+    }
+    let mut body = body.unwrap();
+    // sometimes an inner block over a family member (recursion through renamed bodies)
+    if rng.chance(25) {
+        let inner = fol::Formula::QuantifiedFormula {
+            quantification: fol::Quantification {
+                quantifier: if rng.chance(50) { fol::Quantifier::Forall } else { fol::Quantifier::Exists },
+                variables: vec![fam(rng.below(4))],
+            },
+            formula: literal(rng, None).into(),
+        };
+        body = fol::Formula::BinaryFormula { connective: g::connective(rng), lhs: body.into(), rhs: inner.into() };
+    }
+    let mut f = fol::Formula::QuantifiedFormula {
+        quantification: fol::Quantification {
+            quantifier: if rng.chance(50) { fol::Quantifier::Forall } else { fol::Quantifier::Exists },
+            variables: block,
+        },
+        formula: body.into(),
+    };
+    // sometimes x also occurs free outside the block
+    if rng.chance(25) {
+        let outside = fol::Formula::AtomicFormula(fol::AtomicFormula::Atom(fol::Atom { predicate_symbol: "q".to_string(), terms: vec![x_term] }));
+        f = fol::Formula::BinaryFormula { connective: g::connective(rng), lhs: outside.into(), rhs: f.into() };
+    }
     l(vec![conv::formula(&f), conv::var(&x), conv::gterm(&t)])
 }
 
